@@ -15,11 +15,27 @@ def bundle_scene(k, seed):
     return _df(rows), {'k': k, 'seed': seed, 'layout': 'thick_slice_plus_single_hits', 'ceilos': ['A'], 'rows': len(rows)}
 
 
+def thin_deck_with_repeated_heights(k, seed):
+    """one instrument, a thin deck whose heights are whole feet with one value repeated many times, placed anywhere in the range --
+    also just below its upper end (100000 ft)"""
+    rng = random.Random(seed * 53 + k)
+    base = rng.choice([99940.0, 99900.0, 60000.0, 99940.0, 2000.0])
+    n = rng.choice([40, 50, 60])
+    hs = [base + rng.randint(0, 59) for _ in range(n)]
+    for j in rng.sample(range(n), 12):
+        hs[j] = base + 50.0
+    rows = [('A', -1200.0 + 20.0 * t, hs[t], 1) for t in range(n)]
+    return _df(rows), {'k': k, 'seed': seed, 'layout': f'thin_deck_with_repeated_heights({base})', 'ceilos': ['A'], 'rows': len(rows)}
+
+
 def check(k, seed):
     import ampycloud
     rng = random.Random(seed * 19 + k)
     df, desc = bundle_scene(k, seed) if k % 7 == 6 else scene(k, seed)
     prms = prms_variant(k, seed)
+    if k % 10 == 3:
+        df, desc = thin_deck_with_repeated_heights(k, seed)
+        prms = {'LAYERING_PRMS': {'gmm_kwargs': {'rescale_0_to_x': rng.choice([None, None, 100])}}}
     if k % 7 == 6 or rng.random() < 0.15:
         prms.setdefault('SLICING_PRMS', {})['dt_scale'] = rng.choice([1000, 1, 100000])
     if rng.random() < 0.2:
